@@ -9,6 +9,7 @@ import (
 
 	"github.com/rqlite/rqlite/v10/db"
 	"github.com/rqlite/rqlite/v10/internal/rsum"
+	"github.com/rqlite/rqlite/v10/internal/verifhook"
 	"github.com/rqlite/rqlite/v10/snapshot/sidecar"
 )
 
@@ -80,6 +81,9 @@ func (e *Executor) Checkpoint(dbPath string, wals []string) (int, error) {
 		if err := db.CheckpointRemove(dbPath); err != nil {
 			return 0, fmt.Errorf("checkpoint leftover WAL: %w", err)
 		}
+		if err := verifhook.Hit("plan.checkpoint.after-leftover"); err != nil {
+			return 0, err
+		}
 	}
 
 	existingWals := []string{}
@@ -101,8 +105,14 @@ func (e *Executor) Checkpoint(dbPath string, wals []string) (int, error) {
 		if err := os.Rename(wal, walPath); err != nil {
 			return 0, fmt.Errorf("moving WAL %s: %w", wal, err)
 		}
+		if err := verifhook.Hit("plan.checkpoint.after-wal-move"); err != nil {
+			return 0, err
+		}
 		if err := db.CheckpointRemove(dbPath); err != nil {
 			return 0, fmt.Errorf("checkpointing WAL: %w", err)
+		}
+		if err := verifhook.Hit("plan.checkpoint.after-wal-checkpoint"); err != nil {
+			return 0, err
 		}
 	}
 	return n, nil
